@@ -447,6 +447,9 @@ def gen_consts(repo):
     m = re.search(r"sk\.mark\.index \+ (\d+) < self\.mark\.index", s)
     if not m:
         raise TranslateError("simple key limit")
+    m2 = re.search(r"sk\.mark\.index \+ (\d+) < start_mark\.index", s)
+    if not m2 or m2.group(1) != m.group(1):
+        raise TranslateError("simple key limit of the flow-sequence pair (fetch_value) differs from stale_simple_keys")
     out += "Definition SIMPLE_KEY_MAX : N := %s.\n" % m.group(1)
     m = re.search(r"flow_level: (u\d+),", s)
     if not m:
